@@ -188,6 +188,30 @@ func procOrder() bool {
 	return procOn
 }
 
+// SetProcOrder gives the in-process harness the control that VERIF_MAPORDER gives a child process: on=false
+// returns to Go's own order; the call counter restarts.
+func SetProcOrder(spec string, on bool) {
+	procOnce.Do(func() {})
+	procOn = on
+	procRev = spec == "rev"
+	procDev = map[int64]int{}
+	for _, f := range strings.Split(spec, ",") {
+		jp := strings.SplitN(f, ":", 2)
+		if len(jp) != 2 {
+			continue
+		}
+		j, e1 := strconv.ParseInt(jp[0], 10, 64)
+		p, e2 := strconv.Atoi(jp[1])
+		if e1 == nil && e2 == nil {
+			procDev[j] = p
+		}
+	}
+	atomic.StoreInt64(&procCalls, 0)
+}
+
+// ProcCalls is the number of map ranges over two or more keys since the order was set.
+func ProcCalls() int64 { return atomic.LoadInt64(&procCalls) }
+
 func procPerm(n int, site string) []int {
 	j := atomic.AddInt64(&procCalls, 1)
 	if procLog != nil {
